@@ -5,6 +5,7 @@ from .. import core
 from ..core import enc, dec
 from .. import dbio
 from . import gen_db as G
+from . import handle_common as H
 
 MC_CFG = "CONSTANT Small = %s\nINIT Init\nNEXT Next\nCHECK_DEADLOCK FALSE\nINVARIANT InvSortedAccepted\nINVARIANT InvSwapRejected\n"
 TRACE_CFG = "INIT Init\nNEXT Next\nCHECK_DEADLOCK FALSE\n"
@@ -67,6 +68,74 @@ def execute(db, q, via):
     return dbio.ids_of(it)
 
 
+def stored(db):
+    """the stored features as the specification's records, by plain SQL on the handle's own connection"""
+    return [dict(id=enc(r[0]), rowid=r[1], seqid=enc(r[2]), source=enc(r[3]), ftype=enc(r[4]), start=r[5], end=r[6], score=enc(r[7]), strand=enc(r[8]), frame=enc(r[9]))
+            for r in db.conn.execute("SELECT id, rowid, seqid, source, featuretype, start, end, score, strand, frame FROM features ORDER BY rowid").fetchall()]
+
+
+def battery(db, rng, stage, hseed, n_sel):
+    """selections, counts, featuretypes(), seqids() on the live handle; returns (events without db index, meta)"""
+    ev, meta = [], []
+    for _ in range(n_sel):
+        q = gen_query(rng)
+        via = "features_of_type" if (not q["anyType"] and rng.random() < 0.5) else "all_features"
+        ev.append({"kind": "select", "q": {k2: q[k2] for k2 in ("anyType", "ftypes", "strand", "order", "reverse")}, "ids": execute(db, q, via)})
+        meta.append((dict(q, stage=stage, hseed=hseed), via))
+    for t in [None] + TYPES + ["nosuch"]:
+        n = db.count_features_of_type(t)
+        ev.append({"kind": "count", "t": enc(t) if t else [], "n": n if isinstance(n, int) and not isinstance(n, bool) else -1})
+        meta.append(({"count": t, "stage": stage, "hseed": hseed}, "count_features_of_type"))
+    ev.append({"kind": "featuretypes", "vals": [enc(x) for x in db.featuretypes()]})
+    meta.append(({"stage": stage, "hseed": hseed}, "featuretypes"))
+    ev.append({"kind": "seqids", "vals": [enc(x) for x in db.seqids()]})
+    meta.append(({"stage": stage, "hseed": hseed}, "seqids"))
+    return ev, meta
+
+
+def history(hseed, path):
+    """ONE handle: battery, delete some features, battery, update with features of old and new types / seqids, battery, delete again, battery.
+    Every answer is judged against the rows stored at that moment (the answers are functions of the current content, not of earlier answers)."""
+    import gffutils
+    import random
+    rng = random.Random(hseed)
+    objs = []
+    for i in range(rng.choice([8, 20, 40])):
+        s = rng.randint(1, 12)
+        objs.append(G.real_feature(G.feat(rng.choice(TYPES), s, s + rng.randint(0, 6), [("ID", ["f%d" % i])], seqid=rng.choice(SEQIDS), source=rng.choice(["b", "a", "B"]),
+                                          strand=rng.choice(["+", "-", "."]), score=rng.choice(SCORES), frame=rng.choice([".", "0", "1"]))))
+    with dbio.quiet():
+        db = gffutils.create_db(objs, path, force=True)
+    dbs, events, meta = [], [], []
+
+    def ask(stage):
+        dbs.append(stored(db))
+        ev, me = battery(db, rng, stage, hseed, 12)
+        for e in ev:
+            e["db"] = len(dbs)
+        events.extend(ev)
+        meta.extend(me)
+    ask(1)
+    for stage, op in enumerate(rng.sample(["delete", "update", "delete_type", "update_new"], 3), 2):
+        ids = [dec(f["id"]) for f in stored(db)]
+        with dbio.quiet():
+            if op == "delete" and ids:
+                db.delete(rng.sample(ids, min(len(ids), rng.randint(1, 4))), make_backup=False)
+            elif op == "delete_type" and ids:
+                t = rng.choice([dec(f["ftype"]) for f in stored(db)])
+                db.delete([dec(f["id"]) for f in stored(db) if dec(f["ftype"]) == t], make_backup=False)     # a whole featuretype disappears
+            elif op == "update":
+                new = [G.real_feature(G.feat(rng.choice(TYPES), 3, 9, [("ID", ["u%d_%d" % (stage, j)])], seqid=rng.choice(SEQIDS), strand=rng.choice(["+", "-"]),
+                                             score=rng.choice(SCORES))) for j in range(rng.randint(1, 5))]
+                db.update(new, make_backup=False)
+            else:
+                new = [G.real_feature(G.feat("novel_type", 1, 2, [("ID", ["n%d_%d" % (stage, j)])], seqid="chrNew")) for j in range(2)]
+                db.update(new, make_backup=False)
+        ask(stage)
+    db.conn.close()
+    return dbs, events, meta
+
+
 def judge(ctx, dbs, events, label):
     p = ctx.path("select_%s.json" % label)
     with open(p, "w") as f:
@@ -83,7 +152,8 @@ def run(ctx):
                 "a stable SQL-key sort satisfies the declarative layer and a swap of differently-keyed neighbours is rejected (MC_Select). Conformance: random databases of "
                 "5-120 features (seqids chrB/chra/Chr1/chré/10/9/2, scores 10/9/2.5/./100, ties everywhere) queried through all_features and features_of_type with "
                 "featuretype as str/list/tuple/set, strand, order_by as str/tuple/list over 10 columns (incl. 'length', 'file_order'), reverse; counts, featuretypes(), "
-                "seqids(); every answer judged by Trace_Select. Non-trivial: order_by given, a collection-valued filter, or ties present; distinct by (database, query).")
+                "seqids(); histories on ONE handle (the battery, then delete / delete a whole featuretype / update with old and new types and seqids, the battery again, ...) "
+                "judged against the rows stored at that moment; every answer judged by Trace_Select. Non-trivial: order_by given, a collection-valued filter, or ties present; distinct by (database, query).")
     mc = ctx.tlc("MC_Select", MC_CFG % ("FALSE" if thorough else "TRUE"), expect="inv", label="sorted accepted / swapped rejected", timeout=1800)
     if not mc.ok:
         ctx.violation({"tlc": "MC_Select"}, "model:" + str(mc.violated), {"log": ctx.keep_log("MC_Select", mc.out)})
@@ -117,6 +187,25 @@ def run(ctx):
             n_iter = len(list(db.features_of_type(t)))
             if n_iter != db.count_features_of_type(t):
                 ctx.violation({"features": feats, "count_type": t}, "count_vs_iteration", {"count": db.count_features_of_type(t), "iterated": n_iter})
+    # D3: histories on one handle
+    nh = 40 if thorough else 10
+    for k in range(nh):
+        hseed = rng.randrange(2 ** 30)
+        path = ctx.path("c11_h%d.db" % k) if k % 2 else ":memory:"
+        try:
+            hd, he, hm = history(hseed, path)
+        except Exception as e:  # noqa
+            ctx.violation({"history_seed": hseed, "file": k % 2 == 1}, "raised:" + type(e).__name__, {"message": str(e)[:200]})
+            continue
+        off = len(dbs)
+        dbs += hd
+        for e in he:
+            e["db"] += off
+        for q, via in hm:
+            q["hfile"] = k % 2 == 1
+        events += he
+        meta += hm
+    ctx.extra["handle_histories"] = nh
     drift = 0
     for idx, clause in judge(ctx, dbs, events, "all"):
         if clause == "drift":
@@ -128,14 +217,27 @@ def run(ctx):
         ctx.count((e["db"], q, via), bool(q.get("order")) or q.get("ftform") in ("list", "tuple", "set") or True)
     ctx.extra["alg_drift"] = drift
     ctx.sample({"query": meta[0][0], "via": meta[0][1], "returned_ids": [dec(i) for i in events[0]["ids"]][:15]})
+    # the handle as a state machine: every history of MC_Handle on one live handle, this property's battery after every step
+    H.check(ctx, "select", 4 if thorough else 3, 20000 if thorough else 1200)
     ctx.assumptions += ["features without coordinates and the JSON-valued columns 'attributes'/'extra' are not ordered on",
                         "text columns are compared in code-point order (= SQLite BINARY collation = Python str order)"]
 
 
 def replay(ctx, rec):
     c = rec["case"]
+    if "raw_handle" in c:
+        return H.replay(ctx, rec, "select")
+    if "history_seed" in c:
+        try:
+            history(c["history_seed"], ctx.path("replay_h.db") if c["file"] else ":memory:")
+            return False
+        except Exception:  # noqa
+            return True
     if "features" not in c:
         return True
+    if "hseed" in c.get("q", {}):        # an answer of a handle history: the whole history is run again from its seed and judged
+        hd, he, hm = history(c["q"]["hseed"], ctx.path("replay_h.db") if c["q"].get("hfile") else ":memory:")
+        return any(cl != "drift" for _, cl in judge(ctx, hd, he, "replay"))
     import gffutils
     if "count_type" in c:
         objs0 = [G.real_feature(G.feat(dec(f["ftype"]), f["start"], f["end"], [("ID", [dec(f["id"])])], seqid=dec(f["seqid"]))) for f in c["features"]]
